@@ -19,8 +19,8 @@ open Heap HM
 population's `members` is the clone's person population, every holder is bound to the clone's
 population and to the clone, and all of these — with the tracer, the set of invalidated cache entries
 and the in-memory stores — are new objects (region `c.reg = h.length` did not exist in `h`). -/
-theorem C13_clone_owns_itself (h : Heap) (s : Id) (tr : Bool) (h' : Heap) (c : Id)
-    (hcl : Closed s.reg h) (hc : cloneSim s tr h = (.ok c, h')) :
+theorem C13_clone_owns_itself (h : Heap) (s : Id) (tr dbg : Bool) (h' : Heap) (c : Id)
+    (hcl : Closed s.reg h) (hc : cloneSim s tr dbg h = (.ok c, h')) :
     ∃ so, h'.get? c = some (.sim so) ∧ so.trace = tr ∧ c.reg = h.length
       ∧ so.tracer.reg = c.reg ∧ so.inval.reg = c.reg ∧ alGet so.pops 0 = some so.persons
       ∧ ∀ e ∈ so.pops, ∃ po, h'.get? e.2 = some (.pop po) ∧ e.2.reg = c.reg ∧ po.sim = c
@@ -53,7 +53,7 @@ theorem C13_clone_owns_itself (h : Heap) (s : Id) (tr : Bool) (h' : Heap) (c : I
     obtain ⟨po, b1, b2, b3, b4, b5⟩ := holders hab
     exact ⟨po, b1, b2, b3, fun _ => b4, b5⟩
 
-example : ∃ c h', cloneSim exS false exH = (.ok c, h') ∧ Closed exS.reg exH ∧ h' = exH' ∧ c = exC :=
+example : ∃ c h', cloneSim exS false false exH = (.ok c, h') ∧ Closed exS.reg exH ∧ h' = exH' ∧ c = exC :=
   ⟨exC, exH', by decide +kernel, by decide +kernel, rfl, rfl⟩
 
 /-- Immediately after cloning: the original is untouched (every region that existed is as it was), and
@@ -62,8 +62,8 @@ the same entity structure (counts, ids, memberships, the role of every member, w
 holder); every role-dependent read — `nb_persons(role)` of a group population, `persons.has_role(role)`,
 which goes back through the person population's own simulation — gives on the clone what it gives on the
 original. -/
-theorem C13_clone_equal_initially (sys : Sys) (h : Heap) (s : Id) (tr : Bool) (h' : Heap) (c : Id)
-    (hwf : WellFormed h s) (hc : cloneSim s tr h = (.ok c, h')) :
+theorem C13_clone_equal_initially (sys : Sys) (h : Heap) (s : Id) (tr dbg : Bool) (h' : Heap) (c : Id)
+    (hwf : WellFormed h s) (hc : cloneSim s tr dbg h = (.ok c, h')) :
     (∀ r, r < h.length → h'[r]? = h[r]?)
     ∧ (∀ v p, (readValue sys c v p h').1 = (readValue sys s v p h).1)
     ∧ (∀ v, (readKnown sys c v h').1 = (readKnown sys s v h).1)
@@ -189,8 +189,8 @@ into one temporary directory, finding F-C13-disk; see `C13_disk_shared_counterex
 Whatever is reachable from the clone, through any number of references, is an object of the clone's
 region, whatever is reachable from the original is an object of the original's region: no object —
 store, holder, population, tracer, set of invalidated entries — is reachable from both. -/
-theorem C13_footprints_disjoint_partial (h : Heap) (s : Id) (tr : Bool) (h' : Heap) (c : Id)
-    (hwf : WellFormed h s) (hmem : MemoryBacked h s) (hc : cloneSim s tr h = (.ok c, h')) (n m : Nat) :
+theorem C13_footprints_disjoint_partial (h : Heap) (s : Id) (tr dbg : Bool) (h' : Heap) (c : Id)
+    (hwf : WellFormed h s) (hmem : MemoryBacked h s) (hc : cloneSim s tr dbg h = (.ok c, h')) (n m : Nat) :
     ∀ p ∈ reach h' n [c], ∀ q ∈ reach h' m [s], p ≠ q := by
   obtain ⟨hne, cs, cc⟩ := clone_regions hwf hmem hc
   intro p hp q hq hpq
@@ -209,8 +209,8 @@ For EVERY interleaved sequence of calls (`set_input`, `delete_arrays`, `calculat
 at the end — every known (variable, period) with its vector, the entity structure, the trace flag and
 recorded roots, what each part refers to — and what each of its calls returned, are exactly what they
 are when the same simulation's own calls are run alone. -/
-theorem C13_noninterference_partial (sys : Sys) (fuel : Nat) (h : Heap) (s : Id) (tr : Bool) (h' : Heap) (c : Id)
-    (hwf : WellFormed h s) (hmem : MemoryBacked h s) (hc : cloneSim s tr h = (.ok c, h'))
+theorem C13_noninterference_partial (sys : Sys) (fuel : Nat) (h : Heap) (s : Id) (tr dbg : Bool) (h' : Heap) (c : Id)
+    (hwf : WellFormed h s) (hmem : MemoryBacked h s) (hc : cloneSim s tr dbg h = (.ok c, h'))
     (ops : List (Side × Op)) :
     ((observe s (runOps sys fuel s c ops h')).1 = (observe s (runSide sys fuel s (ops.filterMap (onSide .orig)) h')).1
       ∧ resultsOps sys fuel s c .orig ops h' = resultsSide sys fuel s (ops.filterMap (onSide .orig)) h')
@@ -226,12 +226,12 @@ theorem C13_noninterference_partial (sys : Sys) (fuel : Nat) (h : Heap) (s : Id)
    and of the model for a simulation with a memory configuration (`C13_disk_shared_counterexample` below);
    what is missing is exactly the hypothesis `hmem : MemoryBacked h s`.
 
-theorem C13_footprints_disjoint (h : Heap) (s : Id) (tr : Bool) (h' : Heap) (c : Id)
-    (hwf : WellFormed h s) (hc : cloneSim s tr h = (.ok c, h')) (n m : Nat) :
+theorem C13_footprints_disjoint (h : Heap) (s : Id) (tr dbg : Bool) (h' : Heap) (c : Id)
+    (hwf : WellFormed h s) (hc : cloneSim s tr dbg h = (.ok c, h')) (n m : Nat) :
     ∀ p ∈ reach h' n [c], ∀ q ∈ reach h' m [s], p ≠ q
 
-theorem C13_noninterference (sys : Sys) (fuel : Nat) (h : Heap) (s : Id) (tr : Bool) (h' : Heap) (c : Id)
-    (hwf : WellFormed h s) (hc : cloneSim s tr h = (.ok c, h')) (ops : List (Side × Op)) :
+theorem C13_noninterference (sys : Sys) (fuel : Nat) (h : Heap) (s : Id) (tr dbg : Bool) (h' : Heap) (c : Id)
+    (hwf : WellFormed h s) (hc : cloneSim s tr dbg h = (.ok c, h')) (ops : List (Side × Op)) :
     (observe s (runOps sys fuel s c ops h')).1 = (observe s (runSide sys fuel s (ops.filterMap (onSide .orig)) h')).1
     ∧ (observe c (runOps sys fuel s c ops h')).1 = (observe c (runSide sys fuel c (ops.filterMap (onSide .clone)) h')).1
 -/
@@ -250,7 +250,7 @@ on disk) the cloned holder shares the original's `OnDiskStorage`; an input set o
 month is read from the *original*, which therefore differs from the original operated alone (no call at
 all), and the storage object and the directory are reachable from both simulations. -/
 theorem C13_disk_shared_counterexample :
-    WellFormed exDiskH exS ∧ cloneSim exS false exDiskH = (.ok exC, exDiskH')
+    WellFormed exDiskH exS ∧ cloneSim exS false false exDiskH = (.ok exC, exDiskH')
     ∧ (readValue exDiskSys exS 0 exM2 (runOps exDiskSys 40 exS exC [(.clone, .setInput 0 exM2 [2])] exDiskH')).1
         = .ok (some [2])
     ∧ (readValue exDiskSys exS 0 exM2 (runSide exDiskSys 40 exS [] exDiskH')).1 = .ok none
